@@ -7,7 +7,7 @@ cd /verif/sim || exit 2
 TD=/tmp/verif_cov_target; PD=/tmp/verif_cov_prof; rm -rf $PD; mkdir -p $PD
 IDS="${@:-C01 C02 C04 C05 C06 C07 C09 C25 C26 C27 C28 C29 C30 C32 C33 C34}"
 export RUSTFLAGS="--cfg dicom_verif --cfg dicom_verif_cov -C instrument-coverage"
-cargo +nightly build --release --offline --target-dir $TD 2>&1 | tail -2
+LLVM_PROFILE_FILE="$PD/build-%p-%m.profraw" cargo +nightly build --release --offline --target-dir $TD 2>&1 | tail -2
 BIN=$TD/release/dcmsim
 TOOLS=$(dirname $(rustc +nightly --print target-libdir))/bin
 for id in $IDS; do
